@@ -249,3 +249,72 @@ def escape_table(ck, F):
         ck.ob(R, "escape_xml|%s" % ent, ch in chars and ent in strs,
               "escape_xml does not map %r to %s (chars seen %s, entities %s)" % (ch, ent, sorted(chars)[:12], sorted(strs)[:8]), b.file, b.line,
               sample={"char": ch, "entity": ent})
+
+
+def stored_eq_parsed(ck, F, rule="STORED-EQ-PARSED"):
+    """What is saved is what is kept in memory: in Model::set_cell_with_formula (and set_cell_with_array_formula-like
+    siblings) the parse tree pushed into Model.parsed_formulas and the tree whose to_rc_format text is pushed into
+    Worksheet.shared_formulas are the same value -- the same reaching definitions of the same local at both points."""
+    from mir import reaching_defs, defs_reaching
+    MODEL = "ironcalc_base::model::Model"
+    n = 0
+    for path in sorted(F.body_paths()):
+        h = F.heads[path]
+        if h.get("impl_adt") != MODEL or h.get("bkind") != "fn":
+            continue
+        cs = F.calls.get(path, [])
+        if not any(c.endswith("stringify::to_rc_format") for c in cs):
+            continue
+        b = F.body(path)
+        rd = None
+        # the tree that is stringified
+        rc = []
+        for bi, t in b.calls_to("stringify::to_rc_format"):
+            rt = b.ref_target(t["args"][0]) if t["args"] else None
+            if rt is not None and not place_proj(rt):
+                rc.append((bi, rt["l"]))
+        # the tree that is stored in memory
+        kept = []
+        for bi, t in b.calls():
+            if not (b.callee_q(t) or "").endswith("Vec::push") or len(t["args"]) != 2:
+                continue
+            from rules_attr import sources
+            if ("field", MODEL, "parsed_formulas") not in sources(b, t["args"][0]):
+                continue
+            r = b.trace(t["args"][1])
+            ops = r["rv"]["ops"] if r["kind"] == "rv" and r["rv"]["k"] == "agg" else [t["args"][1]]
+            for o in ops:
+                q = op_place(o)
+                while q is not None and not place_proj(q) and not b.local_name(q["l"]) and len(b.defs().get(q["l"], [])) == 1:
+                    rv = b.def_rvalue(q["l"])
+                    if rv is None or rv["k"] != "use":
+                        break
+                    q = op_place(rv["o"])
+                if q is not None and not place_proj(q) and "parser::Node" in b.locals[q["l"]]:
+                    # statement index of the move into the tuple: use the block of the push, terminator point
+                    kept.append((bi, q["l"]))
+        if not rc or not kept:
+            continue
+        rd = reaching_defs(b)
+        qn = h["name"]
+        for (kb, kl) in kept:
+            same = [x for x in rc if x[1] == kl]
+            n += 1
+            f, l = b.loc(kb)
+            if not same:
+                ck.ob(rule, "%s|same-local" % qn, False, "%s keeps one parse tree in memory but stores the text of another local" % qn, f, l)
+                continue
+            for (sb, sl) in same:
+                # definitions reaching the to_rc_format call vs. those reaching the move into parsed_formulas; the move
+                # happens in a statement before the push, so look at the start of the blocks leading to it
+                d1 = defs_reaching(b, rd, sb, 0, sl) if not any(not place_proj(s["p"]) and s["p"]["l"] == sl for s in b.blocks[sb]["s"]) else defs_reaching(b, rd, sb, "t", sl)
+                d2 = set()
+                for bi, si, s in b.stmts():
+                    q = op_place(s["rv"].get("o", {})) if s["rv"]["k"] == "use" else None
+                    if q is not None and not place_proj(q) and q["l"] == kl and s["rv"]["o"].get("m") is not None and b.dominates(bi, kb):
+                        d2 |= set(defs_reaching(b, rd, bi, si, kl))
+                ck.ob(rule, "%s|stored text and kept tree have the same definitions" % qn, bool(d2) and set(d1) == d2,
+                      "%s stringifies `%s` as defined at %s but keeps it in memory as defined at %s: the saved formula text is not the text of the "
+                      "tree the model evaluates (a reload re-parses something else)" % (qn, b.local_name(kl) or "_%d" % kl, sorted(map(str, d1)), sorted(map(str, d2))),
+                      f, l, sample={"fn": qn, "local": b.local_name(kl)})
+    ck.note("stored_formula_sites", n)
